@@ -82,7 +82,12 @@ def comparator_task(task):
     st = State(Heap(ex.schema))
     recv = RefV(dsl.fresh_ref("self"), cls)
     t0 = time.time()
-    exits = ex.run_function(fi, st, recv, [a, b])
+    try:
+        exits = ex.run_function(fi, st, recv, [a, b])
+    except Exception as e:
+        # the body is not a comparison of calendar accessors (outside the subset): nothing is proved about it; the real comparator is run against the
+        # independent calendar key on neighbouring rows of every kind (bounded stand-in) - a disagreement is a violation with a replayable input
+        return _real_comparator_search(out, cls, period, q, "%s" % str(e).splitlines()[0][:160])
     trues = []
     for (s, oc) in exits:
         if oc.kind != "return":
@@ -168,6 +173,58 @@ def comparator_task(task):
                  model=dict(kind=kind_, date_a=str(d1), date_b=str(d2), key_code=used, period=period), info=dict(witness="%s: %s vs %s" % (kind_, d1, d2)))
         )
     out["samples"].append(dict(comparator=cls, key_extracted_from_body=used, days_enumerated=n, code_keys=len(code2spec), spec_keys=len(spec2code)))
+    return out
+
+
+REAL_COMPARATOR_SRC = """
+import json, datetime, warnings
+warnings.filterwarnings("ignore")
+import pandas as pd
+import bt
+from bt import algos
+CLS, PERIOD = %r, %r
+def spec_key(period, d):
+    o = d.toordinal()
+    if period == "day": return o
+    if period == "week": return (o - 1) // 7
+    if period == "month": return 12 * d.year + d.month
+    if period == "quarter": return 4 * d.year + (d.month - 1) // 3
+    return d.year
+algo = getattr(algos, CLS)()
+days = pd.date_range("1990-01-01", "2041-01-01", freq="D")
+bad, n = None, 0
+def chk(a, b):
+    global bad, n
+    n += 1
+    want = spec_key(PERIOD, a.date()) != spec_key(PERIOD, b.date())
+    for (x, y) in ((a, b), (b, a)):                        # the previous row, or the next one in end-of-period mode
+        got = bool(algo.compare_dates(x, y))
+        if got != want and bad is None: bad = dict(now=str(x), neighbour=str(y), returned=got, period_changes=want)
+for i, d in enumerate(days[:-400]):
+    chk(d + pd.Timedelta(hours=16), days[i + 1] + pd.Timedelta(hours=13))           # an early close after a normal one (21 h apart)
+    chk(d + pd.Timedelta("09:30:00"), d + pd.Timedelta("16:00:00"))                  # two stamps of one day
+    chk(d + pd.Timedelta("18:00:00"), days[i + 1])                                   # 6 h apart across midnight
+    for gap in (1, 2, 3, 7, 31, 92, 366):
+        chk(d, days[i + gap])
+    if bad is not None: break
+print("JSON:" + json.dumps(dict(pairs=n, bad=bad)))
+"""
+
+
+def _real_comparator_search(out, cls, period, q, why):
+    from pyvc.replay import Scratch
+
+    t1 = time.time()
+    out["results"].append(dict(id="%s.compare_dates/is-key-inequality" % cls, kind="post", props=["C12"], verdict="unknown", backend="z3", secs=0.0, func=q, info=dict(reason="body outside the subset: " + why)))
+    with Scratch() as sc:
+        d = sc.run_json(REAL_COMPARATOR_SRC % (cls, period), timeout=1500)
+    oid = "bounded/%s.compare_dates/agrees-with-the-calendar-key-on-neighbouring-rows" % cls
+    if d.get("bad"):
+        out["results"].append(dict(id=oid, kind="bounded", props=["C12"], verdict="refuted", backend="real-execution", secs=round(time.time() - t1, 3), func=q, model=d["bad"],
+                                   info=dict(witness="compare_dates(%s, %s) returned %s" % (d["bad"]["now"], d["bad"]["neighbour"], d["bad"]["returned"])), replay_inline=dict(reproduced=True, witness=d["bad"], script="props/c12_tasks.py REAL_COMPARATOR_SRC")))
+    else:
+        out["undecided"] = "compare_dates of %s is outside the subset (%s) and the real-code search over %s pairs found no disagreement" % (cls, why, d.get("pairs"))
+    out["samples"].append(dict(comparator=cls, real_code_pairs=d.get("pairs")))
     return out
 
 
